@@ -18,6 +18,11 @@ partial_fit(idx, y, sample_weight, use_base_clf, set_base_clf)   [unit partial_f
 native partial_fit (use_partial_fit == True)   [unit partial_fit.native.*]
     ensures exactly one call clf_.partial_fit(X[idx], y', sample_weight=w'), on a deep copy of base_clf_ if use_base_clf
 
+precomputed-kernel speed-up   [units precompute.*, speedup.*]
+    cache invariant: every entry of pwc_K_ is NaN or KER(i, j), the kernel of samples i and j under the wrapped classifier's metric
+    precompute(idx_fit, idx_pred, fit_params, pred_params) preserves it, caches exactly the requested pairs, leaves the others alone
+    predict / predict_proba / predict_freq: raise, or call the precomputed clone once with P[b, a] = KER(idx_[a], idx[b]) (no NaN)
+
 What is trusted: a scikit-learn `fit` discards every earlier fit (so (*) means 'equals a fresh copy trained on view'), clone/deepcopy.
 """
 import ast
@@ -471,3 +476,181 @@ for wm in ("none", "own", "given"):
         for ub in (False, True):
             for sb in (False, True):
                 UNITS[f"native.{wm}.{yg}.{ub}.{sb}"] = unit_partial_fit_native(wm, yg, ub, sb)
+
+
+# ------------------------------------------------------------------------------------------ precomputed-kernel speed-up
+from pyvc.se import mk_fv
+from .pool_base import check_indices_contract, MISSING
+
+KER = z3.Function("KER", I, I, R)      # kernel value between samples i and j of self.X under the wrapped classifier's metric
+
+
+def k_inv(K, N):
+    """cache invariant: every entry of pwc_K_ is NaN (not computed yet) or the kernel value of its pair of samples"""
+    i, j = z3.Ints("ki kj")
+    nan, val = to_real(K.sel(i, j))
+    return z3.ForAll([i, j], z3.Implies(z3.And(0 <= i, i < N, 0 <= j, j < N), z3.Or(nan, val == KER(i, j))))
+
+
+def speedup_lib():
+    L = index_lib()
+    generic_ci = L.functions["check_indices"]
+    holder = {}
+    check_indices_contract(L)          # strictly increasing, same set, in range (proved in pool_base.check_indices)
+    sorted_ci = L.functions["check_indices"]
+
+    @L.fn("check_indices")
+    def _ci(E, st, args, kw, node):
+        if kw.get("unique", True) is True:
+            return sorted_ci(E, st, args, kw, node)
+        return generic_ci(E, st, args, kw, node)
+
+    @L.fn("pairwise_kernels")
+    def _pk(E, st, args, kw, node):
+        """sklearn.metrics.pairwise.pairwise_kernels(A, B, metric, **params): entry (s, t) is the kernel of row s of A and row t of B;
+        for A = X[ia], B = X[ib] that is KER(ia[s], ib[t]) (finite)"""
+        A, Bm = st.get(args[0]), st.get(args[1])
+        ga, gb = getattr(A, "gather_of", None), getattr(Bm, "gather_of", None)
+        if ga is None or gb is None or ga[0] is not gb[0]:
+            raise Unsupported("pairwise_kernels: rows of one data matrix expected")
+        ia, ib = ga[1], gb[1]
+        r = st.alloc(ArrData((ia.shape[0], ib.shape[0]), lambda s_, t_: mk_fv(z3.BoolVal(False), KER(to_int(ia.sel(s_)), to_int(ib.sel(t_)))), "f"))
+        st.events.append(("call", "pairwise_kernels", args, kw, r, {"X": ga[0]}))
+        return r
+
+    def pwc_call(name):
+        def h(E, st, recv, args, kw, node):
+            st.events.append(("call", "ParzenWindowClassifier." + name, [recv] + list(args), kw, Opaque(name),
+                              {a.id: st.heap.get(a.id) for a in args if isinstance(a, Ref)}))
+            return Opaque(name)
+        return h
+    for nm in ("predict", "predict_proba", "predict_freq"):
+        for c in ("ParzenWindowClassifier", "ClassFrequencyEstimator", "SkactivemlClassifier"):     # whichever class defines the method
+            L.contracts[f"{c}.{nm}"] = pwc_call(nm)
+    return L
+
+
+def speedup_world(E, st, fitted=True):
+    N, d = z3.Int("N"), z3.Int("d")
+    st.assume(N >= 1, d >= 1)
+    X = st.alloc(ArrData((N, d), fresh_sel("X", "o", 2), "o"))
+    y = st.alloc(ArrData((N,), fresh_sel("y", "o"), "o"))
+    K = ArrData((N, N), fresh_sel("K", "f", 2), "f")
+    st.assume(k_inv(K, N))
+    metric = Opaque("pwc_metric")
+    from pyvc.se import DictData
+    fields = {"X": X, "y": y, "sample_weight": None, "clf": st.alloc(ObjData("ParzenWindowClassifier", {"__open__": True})),
+              "clf_": st.alloc(ObjData("ParzenWindowClassifier", {"__open__": True})),
+              "missing_label_": Opaque("missing_label"), "enforce_unique_samples": False, "use_partial_fit": False, "use_speed_up": True,
+              "pwc_K_": st.alloc(K), "pwc_metric_": metric, "pwc_metric_dict_": st.alloc(DictData({}, False))}
+    ctx = {"N": N, "X": st.get(X), "y": st.get(y), "K": K, "metric": metric}
+    if fitted:
+        Lc = z3.Int("L")
+        st.assume(Lc >= 0)
+        ii = ArrData((Lc,), fresh_sel("idx_", "i"), "i")
+        t = z3.Int("t_in")
+        st.assume(z3.ForAll([t], z3.Implies(z3.And(0 <= t, t < Lc), z3.And(0 <= to_int(ii.sel(t)), to_int(ii.sel(t)) < N))))
+        fields["idx_"] = st.alloc(ii)
+        ctx.update(L=Lc, idx_=ii)
+    ctx["self"] = st.alloc(ObjData(CLS, fields))
+    ctx["pre_refs"] = dict(fields)
+    ctx["pre"] = {k: (st.get(v) if isinstance(v, Ref) and isinstance(st.get(v), ArrData) else v) for k, v in fields.items()}
+    return ctx
+
+
+def unit_precompute(fit_params, pred_params):
+    def setup(E, st):
+        ctx = speedup_world(E, st)
+        a, b = z3.Int("n_fit"), z3.Int("n_pred")
+        st.assume(a >= 0, b >= 0)
+        fa = ArrData((a,), fresh_sel("idx_fit", "i"), "i")
+        pa = ArrData((b,), fresh_sel("idx_pred", "i"), "i")
+        ctx.update(fa=fa, pa=pa, a=a, b=b)
+        ctx["args"] = [ctx["self"], st.alloc(fa), st.alloc(pa)]
+        ctx["kwargs"] = {"fit_params": fit_params, "pred_params": pred_params}
+        return ctx
+
+    def post(E, ctx, outs):
+        rets = returns(outs)
+        if not rets:
+            E.oblige("reaches.return", [], z3.BoolVal(False))
+        N, K0 = ctx["N"], ctx["K"]
+        ml = ctx["pre_refs"]["missing_label_"]
+        yv = ctx["y"]
+
+        def wanted(arr, n, mode):
+            def pred(i):
+                t = z3.Int("w_t")
+                lab = MISSING(yv.sel(i).sym, ml.sym)
+                cond = {"all": z3.BoolVal(True), "labeled": z3.Not(lab), "unlabeled": lab}[mode]
+                return z3.And(cond, z3.Exists([t], z3.And(0 <= t, t < n, to_int(arr.sel(t)) == i)))
+            return pred
+        wf, wp = wanted(ctx["fa"], ctx["a"], fit_params), wanted(ctx["pa"], ctx["b"], pred_params)
+        for o in rets:
+            st = o.state
+            f = st.get(ctx["self"]).fields
+            K1 = st.get(f["pwc_K_"]) if isinstance(f.get("pwc_K_"), Ref) else None
+            ok = isinstance(K1, ArrData) and K1.ndim == 2 and K1.kind == "f"
+            E.oblige("C19.precompute.cache_is_a_float_matrix", st, z3.BoolVal(bool(ok)))
+            if not ok:
+                continue
+            E.oblige("C19.precompute.cache_invariant_preserved", st, k_inv(K1, N))
+            ic, jc = fresh("i", I), fresh("j", I)
+            rng = [0 <= ic, ic < N, 0 <= jc, jc < N]
+            nan1, val1 = to_real(K1.sel(ic, jc))
+            E.oblige("C19.precompute.requested_pairs_are_cached", st.pc + rng + [wf(ic), wp(jc)], z3.And(z3.Not(nan1), val1 == KER(ic, jc)))
+            E.oblige("C19.precompute.other_pairs_untouched", st.pc + rng + [z3.Not(z3.And(wf(ic), wp(jc)))], eq_val(K1.sel(ic, jc), K0.sel(ic, jc)))
+            pk = [e_ for e_ in st.events if e_[0] == "call" and e_[1] == "pairwise_kernels"]
+            for e_ in pk:
+                margs = list(e_[2][2:]) + [e_[3].get("metric")]
+                E.oblige("C19.precompute.kernel_of_the_wrapped_classifier", st, z3.BoolVal(any(m_ is ctx["metric"] for m_ in margs) and e_[5]["X"] is ctx["X"]
+                                                                                             and not [k_ for k_ in e_[3] if k_ not in ("metric",)]))
+            check_unchanged(E, st, ctx, f, ["X", "y", "clf", "clf_", "idx_"], "C19.precompute")
+    return se_unit(f"index_wrapper.precompute.fit_{fit_params}.pred_{pred_params}", FU, f"{CLS}.precompute", CLS, setup, post, lib_factory=speedup_lib)
+
+
+def unit_speedup_predict(method):
+    def setup(E, st):
+        ctx = speedup_world(E, st)
+        q = z3.Int("n_query")
+        st.assume(q >= 0)
+        qa = ArrData((q,), fresh_sel("query_idx", "i"), "i")
+        t = z3.Int("t_q")
+        st.assume(z3.ForAll([t], z3.Implies(z3.And(0 <= t, t < q), z3.And(0 <= to_int(qa.sel(t)), to_int(qa.sel(t)) < ctx["N"]))))
+        ctx.update(q=q, qa=qa)
+        ctx["args"] = [ctx["self"], st.alloc(qa)]
+        return ctx
+
+    def post(E, ctx, outs):
+        rets = returns(outs)
+        if not rets:
+            E.oblige("reaches.return", [], z3.BoolVal(False))
+        for o in rets:
+            st = o.state
+            f = st.get(ctx["self"]).fields
+            calls = [e_ for e_ in st.events if e_[0] == "call" and e_[1].startswith("ParzenWindowClassifier.")]
+            E.oblige(f"C19.speedup.{method}.one_call_of_the_precomputed_classifier", st,
+                     z3.BoolVal(len(calls) == 1 and calls[0][1].endswith("." + method) and calls[0][2][0].id == ctx["pre_refs"]["clf_"].id))
+            if len(calls) != 1:
+                continue
+            P = calls[0][2][1] if len(calls[0][2]) > 1 else None
+            Pd = calls[0][5].get(P.id) if isinstance(P, Ref) else None
+            ok = isinstance(Pd, ArrData) and Pd.ndim == 2
+            E.oblige(f"C19.speedup.{method}.argument_is_a_matrix", st, z3.BoolVal(bool(ok)))
+            if not ok:
+                continue
+            a, b = z3.Ints("sa sb")
+            nan, val = to_real(Pd.sel(b, a))
+            E.oblige(f"C19.speedup.{method}.rows_are_the_kernels_between_query_and_training_samples", st, z3.And(
+                to_int(Pd.shape[0]) == ctx["q"], to_int(Pd.shape[1]) == ctx["L"],
+                z3.ForAll([a, b], z3.Implies(z3.And(0 <= a, a < ctx["L"], 0 <= b, b < ctx["q"]),
+                                             z3.And(z3.Not(nan), val == KER(to_int(ctx["idx_"].sel(a)), to_int(ctx["qa"].sel(b))))))))
+            check_unchanged(E, st, ctx, f, ["X", "y", "clf", "clf_", "idx_", "pwc_K_"], f"C19.speedup.{method}")
+    return se_unit(f"index_wrapper.speedup.{method}", FU, f"{CLS}.{method}", CLS, setup, post, lib_factory=speedup_lib)
+
+
+for fp in ("all", "labeled", "unlabeled"):
+    for pp in ("all", "labeled", "unlabeled"):
+        UNITS[f"precompute.{fp}.{pp}"] = unit_precompute(fp, pp)
+for mth in ("predict", "predict_proba", "predict_freq"):
+    UNITS[f"speedup.{mth}"] = unit_speedup_predict(mth)
